@@ -57,6 +57,11 @@ def universe(tier):
                 forms.append(f"y ~ {combo[0]}*{combo[1]}")
                 forms.append(f"y ~ 0 + {combo[0]} + {t}")
                 forms.append(f"y ~ {combo[0]}/{combo[1]}")
+                # '*' with a parenthesised sum (Term x Model branch of Term.__mul__): main effects and interactions must not
+                # share factor objects, or the coding chosen for one leaks into the labels of the other
+                extra = next(v for v in ("x", "z", "h") if v not in cols)
+                forms.append(f"y ~ 0 + {combo[0]}*({combo[1]} + {extra})")
+                forms.append(f"y ~ {combo[0]}*({combo[1]} + {extra})")
     rnd = random.Random(4)
     if tier == "quick":
         three = [f for f in forms if f.count(":") == 2]
